@@ -74,3 +74,61 @@ func init() {
 		r.add("DBGC", "debug", "x", "x", nil, nil, "")
 	})
 }
+
+func init() {
+	register("DBGT", "debug template sibling diffs", func(c *Ctx, r *Report) {
+		prof := map[string]map[string]map[string]bool{} // tpl -> engine -> element
+		for _, en := range c.T.Order {
+			eng := c.T.Engines[en]
+			add := func(tpl, el string) {
+				if prof[tpl] == nil { prof[tpl] = map[string]map[string]bool{} }
+				if prof[tpl][en] == nil { prof[tpl][en] = map[string]bool{} }
+				prof[tpl][en][el] = true
+			}
+			for _, rd := range eng.Reads { add(rd.Tpl, "read:"+rd.Path+"=>"+fmt.Sprint(rd.Fields)) }
+			for _, h := range eng.Helpers { add(h.Tpl, "helper:"+h.Helper+fmt.Sprint(h.Args)) }
+			for _, iv := range eng.Invokes { add(iv.Tpl, "invoke:"+iv.Partial+"{"+iv.Hash+"}") }
+		}
+		for tpl, pe := range prof {
+			all := map[string]bool{}
+			for _, s := range pe { for k := range s { all[k] = true } }
+			for el := range all {
+				var missing []string
+				for _, en := range c.T.Order { if !pe[en][el] { missing = append(missing, en) } }
+				if len(missing) > 0 { fmt.Println(tpl, "|", el, "| missing in", missing) }
+			}
+		}
+		r.add("DBGT", "debug", "x", "x", nil, nil, "")
+	})
+}
+
+func init() {
+	register("DBGF", "debug function decl sibling diffs", func(c *Ctx, r *Report) {
+		ref := map[string][]string{}
+		for _, en := range c.T.Order {
+			gp, err := parseGoPartial(c.T.Engines[en].Partials["FunctionDeclarations"])
+			if err != nil { fmt.Println(err); continue }
+			fns := normalisedFuncs(gp)
+			if en == "gin" { ref = fns }
+			_ = fns
+		}
+		for _, en := range c.T.Order {
+			gp, _ := parseGoPartial(c.T.Engines[en].Partials["FunctionDeclarations"])
+			fns := normalisedFuncs(gp)
+			for name, toks := range fns {
+				rt, ok := ref[name]
+				if !ok { fmt.Println(en, name, "not in gin"); continue }
+				if fmt.Sprint(rt) != fmt.Sprint(toks) {
+					// first difference
+					i := 0
+					for i < len(rt) && i < len(toks) && rt[i] == toks[i] { i++ }
+					lo := i - 3; if lo < 0 { lo = 0 }
+					hi1 := i + 6; if hi1 > len(rt) { hi1 = len(rt) }
+					hi2 := i + 6; if hi2 > len(toks) { hi2 = len(toks) }
+					fmt.Println(en, name, "differs at", i, "gin:", rt[lo:hi1], en+":", toks[lo:hi2])
+				}
+			}
+		}
+		r.add("DBGF", "debug", "x", "x", nil, nil, "")
+	})
+}
